@@ -454,7 +454,9 @@ def run(R):
             if h3:
                 cls = cls or "history_changed_on_failure"
             stats["by_class"]["stale:" + str(cls)] = stats["by_class"].get("stale:" + str(cls), 0) + 1
-            if cls == "content_edits_not_rolled_back":
+            if cls == "content_edits_not_rolled_back" and kind in ("edit", "truncate"):
+                # (an occupied destination, an unreadable or a missing file are detected BEFORE the first edit: for those
+                # perturbations nothing at all may have changed, the recorded finding does not cover them)
                 known[cls] = True
             elif cls is not None:
                 fails.append({"why": f"stale plan ({kind}): failed apply changed the tree in an unlisted way ({cls})", "rc": rc3,
